@@ -372,7 +372,7 @@ class CFile:
         return res
 
 
-def extract_statement(text, fname, anchor, nth=None):
+def extract_statement(text, fname, anchor, nth=None, nstmts=1):
     """Return the verbatim text of the complete statement of function fname that
     starts at the unique occurrence of `anchor` (an if/for/while header or a
     simple statement): through the matching '}' of its block, or through the ';'
@@ -433,6 +433,8 @@ def extract_statement(text, fname, anchor, nth=None):
                     return j
             j += 1
     end_tok = stmt_end(ti)
+    for _ in range(nstmts - 1):       # further consecutive statements
+        end_tok = stmt_end(end_tok + 1)
     return text[start:cf.toks[end_tok][2]]
 
 
